@@ -25,7 +25,7 @@ SELFTEST = {'quick': 8, 'thorough': 96}
 TOL = 1e-9
 REQUIRED_PROBES = ['edge_fEq', 'edge_null', 'edge_periodic', 'shift_beyond_domain', 'tiny_shift', 'short_velocity_domain', 'asymmetric_velocity_domain', 'dt_negative', 'iota_nonzero']
 RULE = ("Every check: in 12% of the cases one or two bystander ranks share the simulated job and the code under test runs on world.Split(...); one case in HASHSEED_EVERY is re-run in fresh interpreters under other string-hash seeds and every rank's trace (collectives, data sent, result) must agree. "
-        'Also: step() on non-contiguous lines, step() with the same speed and other time steps against a never-used object, keep-gradient step with its own dt and an untouched table, a second gridStep with a new potential (35%), quintic theta splines and other r/z degrees (20%), asymmetric and short velocity domains. '
+        'Also: step() on non-contiguous lines, step() with the same speed and other time steps against a never-used object, keep-gradient step with its own dt and an untouched table, a second gridStep with a new potential (35%), quintic theta splines and other r/z degrees (20%), asymmetric and short velocity domains, step() with a foot exactly on vMin / vMax. '
         'case = (grid sizes, v spline degree 2-5 [3 = uniform-cubic path], constants with rotational '
         'transform zero or not, boundary mode fEq / null / periodic, dt of either sign, random f and a random '
         'real potential whose amplitude spans 6 decades so that shifts range from 0 to beyond the domain, 1-3 '
